@@ -14,17 +14,17 @@ package protocol
 
 // EncodeResponse: the version is set on the response before anything is asked of it; the header handed to the
 // codec's AppendTo is the correlation id plus the tagged-field byte exactly when the response is flexible at that
-// version and the key is not ApiVersions (18); the result is what AppendTo returns for that header.
+// version and its key (kmsgResponseKey, /verif/spec/kmsg_keys.spec) is not ApiVersions (18); the result is what AppendTo returns for that header.
 //@ func EncodeResponse
 //@   ghost versionSet bool = false
 //@   ghost flex bool = false
-//@   ghost key int16 = 0
+//@   ghost flexAsked bool = false
 //@   ghost out []byte = nil
 //@   at SetVersion#1 before assert [C11.version_set_to_request_version] arg0 == apiVersion
 //@   at SetVersion#1 after set versionSet = true
 //@   at IsFlexible#1 before assert [C11.flexibility_asked_after_version_set] versionSet
 //@   at IsFlexible#1 after set flex = ret0
-//@   at Key#1 after set key = ret0
-//@   at AppendTo#1 before assert [C11.header_shape] versionSet && len(arg0) == ite(flex && key != 18, 5, 4) && be32(arg0, 0) == uint32(correlationID) && (len(arg0) == 5 ==> arg0[4] == 0)
+//@   at IsFlexible#1 after set flexAsked = true
+//@   at AppendTo#1 before assert [C11.header_shape] versionSet && flexAsked && len(arg0) == ite(flex && kmsgResponseKey(resp) != 18, 5, 4) && be32(arg0, 0) == uint32(correlationID) && (len(arg0) == 5 ==> arg0[4] == 0)
 //@   at AppendTo#1 after set out = ret0
 //@   ensures [C11.reply_is_header_plus_codec_body] sameSlice(result, out)
